@@ -87,9 +87,15 @@ Eval(x, env) ==
 Leaves == {Lit(1), Lit(2), Var("x"), Var("y")}
 Sources == {Cat(Lit(1), Lit(2)), Var("y"), Cat(Var("x"), Lit(3)), Lit(5)}     \* range expressions
 Conds(v) == {Gt(Var(v), Lit(1)), Gt(Var("x"), Var("y")), Gt(Lit(15), Var(v))}
+Bodies == {Var("x"), Var("y"), Add(Var("x"), Var("y")), Add(Var("y"), Lit(1))}
 Seeds == Leaves \cup {Add(a, b) : a \in {Var("x"), Var("y")}, b \in Leaves}
                \cup {Some(v, s, c) : v \in Vars, s \in {Cat(Lit(1), Lit(2)), Var("y")}, c \in Conds("x") \cup Conds("y")}
                \cup {Every(v, s, c) : v \in Vars, s \in {Cat(Lit(1), Lit(2)), Var("y")}, c \in Conds("x") \cup Conds("y")}
+               \* one binder already in place, so that one more step puts a read of the same name AFTER it
+               \cup {For(v, s, b) : v \in Vars, s \in {Cat(Lit(1), Lit(2)), Cat(Var("x"), Lit(3))}, b \in Bodies}
+               \cup {Let(v, s, b) : v \in Vars, s \in {Cat(Lit(1), Lit(2)), Lit(5)}, b \in Bodies}
+               \cup {Call(v, b, a) : v \in Vars, b \in Bodies, a \in {Lit(2), Var("y")}}
+               \cup {For2("x", Cat(Lit(1), Lit(2)), "y", Cat(Var("x"), Lit(7)), b) : b \in Bodies}
 
 Init == e \in Seeds /\ val = Eval(e, Env0)
 
